@@ -5,18 +5,24 @@ NS = 'BitSerializer::Csv::Detail::'
 RENAME = {'mSourceString': 'BUF', 'mDecodedBuffer': 'BUF', 'mOutputString': 'HDR', 'mCsvHeader': 'HDR'}
 
 
-def skeleton(f, n, out):
+def skeleton(f, n, out, names=None):
+    """token stream of a body; locals and parameters are alpha-renamed by order of first appearance"""
+    if names is None:
+        names = {}
     k = n['k']
     if k in ('ImplicitCastExpr', 'ParenExpr', 'ExprWithCleanups', 'MaterializeTemporaryExpr', 'CXXBindTemporaryExpr', 'CXXFunctionalCastExpr',
              'CXXStaticCastExpr', 'ConstantExpr'):
         for c in n.get('c', ()):
-            skeleton(f, c, out)
+            skeleton(f, c, out, names)
         return
     tok = k
     if k == 'MemberExpr':
         tok += ':' + RENAME.get(n.get('m'), n.get('m', ''))
     elif k == 'DeclRefExpr':
-        tok += ':' + n.get('n', '')
+        if n.get('dk') in ('Var', 'ParmVar') and not n.get('g'):
+            tok += ':v%d' % names.setdefault(n.get('d'), len(names))
+        else:
+            tok += ':' + n.get('n', '')
     elif k in ('BinaryOperator', 'UnaryOperator', 'CompoundAssignOperator', 'CXXOperatorCallExpr'):
         tok += ':' + str(n.get('op'))
     elif k in ('IntegerLiteral', 'CharacterLiteral', 'CXXBoolLiteralExpr'):
@@ -30,7 +36,7 @@ def skeleton(f, n, out):
         tok += ':' + n.get('s', '')
     out.append(tok)
     for c in n.get('c', ()):
-        skeleton(f, c, out)
+        skeleton(f, c, out, names)
 
 
 def one(prog, q):
